@@ -29,6 +29,7 @@ PROFILE = {
     "feat": gen.swarm_feat,
     "edits": ["var", "ver", "lit", "default", "path", "comment", "move"],
     "n": (4, 12),
+    "locations": ["package", "package", "package", "main", "notebook"],
     "p_restart": 0.7,
     "p_load_after": 0.8,
     "p_mutate": 0.04,
